@@ -280,7 +280,7 @@ func runValidate(a *args) error {
 	r := rand.New(rand.NewSource(a.seed))
 	n := 300
 	if a.tier == "thorough" {
-		n = 20000
+		n = 150000
 	}
 	for i := 0; i < n && hangs < 4; i++ {
 		q := vreq{Env: venv{Out: "m0", Stop: 50, NBins: 1, BinType: "wasm/rust-v1", Prod: r.Intn(2) == 0}}
